@@ -58,9 +58,6 @@ func iteValues(c *Term, a, b value) value {
 		}
 		return tIte(c, ta, tb)
 	}
-	if a == b {
-		return a
-	}
 	unsupported("symbolic-index load of non-scalar element %T", a)
 	return nil
 }
@@ -84,6 +81,10 @@ func (i *interpreter) loadPtr(fr *frame, T types.Type, p value, pos token.Pos) v
 	case symptr:
 		n := len(p.base)
 		w := p.idx.sort.w
+		if !scalarish(elemAt(p.base[0], p.path)) {
+			// non-scalar elements (interfaces, pointers, slices): case split
+			return load(T, i.concretePtr(p, pos))
+		}
 		// range-compressed ite chain, from the last element backwards
 		res := elemAt(p.base[n-1], p.path)
 		last := res
@@ -692,4 +693,26 @@ func toTerm64(v value, dflt int64) *Term {
 		return t
 	}
 	return mkBV(64, uint64(asInt64(v)))
+}
+
+func scalarish(v value) bool {
+	switch v := v.(type) {
+	case bool, int, int8, int16, int32, int64, uint, uint8, uint16, uint32, uint64, uintptr, float64, *Term:
+		return true
+	case structure:
+		for _, e := range v {
+			if !scalarish(e) {
+				return false
+			}
+		}
+		return true
+	case array:
+		for _, e := range v {
+			if !scalarish(e) {
+				return false
+			}
+		}
+		return true
+	}
+	return false
 }
